@@ -27,7 +27,7 @@ func init() {
 			{ID: "C07.R5", Min: 3, Doc: "the disk queue behind the spool hands back what it was given: reader and writer agree on the record format and segment-roll condition, and the read position only advances after delivery (rules C09.R5 and C09.R2 evaluated for this property as well)", Run: func(c *Check) { c09r5(c); c09r2(c) }},
 			{ID: "C07.R6", Min: 5, Doc: "keep-safe generations: every store into keepSafe.safeRecent is append(safeRecent, …), a fresh make or nil, every store into safeOld is the current safeRecent, a fresh make or nil; after safeOld = safeRecent the recent generation gets a fresh backing array before anything else can append; Add appends its argument; GetAll returns append(safeOld, safeRecent...)", Run: c07r6},
 			{ID: "C07.R7", Min: 1, Doc: "keep-safe retention: the period every NewKeepSafe call is given is a constant of at least 10 s (directly, or a package variable that is only ever assigned such constants) — lines written less than 10 s before an outage is detected are still available for replay, whatever flush period is configured", Run: c07r7},
-			{ID: "C07.R8", Min: 3, Doc: "nothing leaves uncounted: every line the relay loop receives from In or takes back from the spool ends in exactly one disposition (queued to the connection, queued to the spool, or counted in the slow-connection / slow-spool / connection-down counter) — a line taken from the disk queue and not sent is gone, so the unspool case must count it (rule C06.R4 evaluated for this property as well)", Run: c06r4},
+			{ID: "C07.R8", Min: 7, Doc: "nothing leaves uncounted: every line the relay loop receives from In or takes back from the spool ends in exactly one disposition (queued to the connection, queued to the spool, or counted in the slow-connection / slow-spool / connection-down counter) — a line taken from the disk queue and not sent is gone, so the unspool case must count it (rule C06.R4 evaluated for this property as well)", Run: c06r4},
 			{ID: "C07.R4", Min: 2, Doc: "unspool gating: the assignment toUnspool = spool.Out is dominated by the true edges of conn != nil, Spool, !SlowLastLoop, !SlowNow; the other assignment is nil", Run: c07r4},
 		},
 	})
